@@ -43,6 +43,7 @@ def run_demo(d, sdir):
 
 
 def verify(sdir):
+    sdir = os.path.abspath(sdir)
     d = scratch()
     try:
         rc0, out0 = run_demo(d, sdir)
@@ -59,6 +60,7 @@ def verify(sdir):
 
 
 def detect(sdir, tier='quick'):
+    sdir = os.path.abspath(sdir)
     meta = json.load(open(os.path.join(sdir, 'meta.json')))
     props = meta['property'] if isinstance(meta['property'], list) else [meta['property']]
     props = props + [p for p in meta.get('also_check', []) if p not in props]
